@@ -207,18 +207,14 @@ def _parent_to_child_table(f) -> Tuple[bool, str]:
     owner = _name_to_pos_dict(f, norm(sub.value))
     if owner is None:
         return False, f"`{norm(sub.value)}` must map the child's own parameter names to their positions"
-    osrc = None
-    for n in walk_local(f):
-        t, v = PT.assign_value(n)
-        if t is not None and norm(t) == owner and v is not None:
-            osrc = v
-    if osrc is None or not (isinstance(osrc, ast.Subscript) and norm(osrc.value) == "children"):
+    osrc = D.expanded(f, ast.parse(owner, mode="eval").body)
+    if not (isinstance(osrc, ast.Subscript) and norm(osrc.value) == "children"):
         return False, "the class whose positions are used must be the flipped child (children[idx])"
     empty = elt.orelse
     if not ((isinstance(empty, ast.Tuple) and not empty.elts) or (isinstance(empty, ast.Call) and norm(empty.func) == "tuple" and not empty.args)):
         return False, "an unmapped parent parameter must give the empty tuple"
     rets = [r for r in C.returns_of(f) if r.value is not None and isinstance(r.value, ast.Call)]
-    if not rets or len(rets[0].value.args) != 2 or norm(_resolved(f, rets[0].value.args[1])) != f"len({owner}.extra_parameters)":
+    if not rets or len(rets[0].value.args) != 2 or norm(D.expanded(f, rets[0].value.args[1])) != norm(D.expanded(f, ast.parse(f"len({owner}.extra_parameters)", mode="eval").body)):
         return False, f"the size of the target namespace must be len({owner}.extra_parameters) (the flipped child's parameters)"
     return True, ""
 
